@@ -193,6 +193,14 @@ class Module:
             self.tree = ast.parse(text, filename=relpath)
         except SyntaxError as e:
             raise AnalysisError("cannot parse %s: %s" % (relpath, e))
+        # "extract method" refactorings must not change verdicts: inline private non-jitted helpers at their call sites
+        self.inlined = 0
+        if short not in ("hll_constants", "hll_bias_experiment"):
+            from .normalize import normalize
+            try:
+                self.inlined = normalize(self.tree)
+            except RecursionError:
+                self.inlined = 0
         self.funcs = {}
         self.classes = {}
         self.imports = {}    # local name -> (module short | external dotted, original name)
@@ -372,3 +380,131 @@ def unparse(node, limit=160):
     except Exception:
         s = "<%s>" % type(node).__name__
     return s if len(s) <= limit else s[:limit - 3] + "..."
+
+
+# ---------------------------------------------------------------------------
+# single-assignment temporaries
+# ---------------------------------------------------------------------------
+
+def single_assignments(fnode, allow_subscript=False):
+    """name -> value expression for every local that is bound exactly once in `fnode`, by a plain `name = expr` statement that is
+    not inside a loop, and whose value mentions only parameters that are never rebound or other such locals.  At any later use the
+    name therefore denotes the value of that expression (a use before the definition would raise UnboundLocalError)."""
+    stores = {}
+    in_loop = set()
+
+    def scan(stmts, loop):
+        for s in stmts:
+            if isinstance(s, (ast.FunctionDef, ast.AsyncFunctionDef, ast.ClassDef, ast.Lambda)):
+                continue
+            for n in ([s] if not hasattr(s, "body") else []):
+                pass
+            if isinstance(s, ast.Assign):
+                for t in s.targets:
+                    for e in ast.walk(t):
+                        if isinstance(e, ast.Name) and isinstance(e.ctx, ast.Store):
+                            stores.setdefault(e.id, []).append(s if (len(s.targets) == 1 and t is e) else None)
+                            if loop:
+                                in_loop.add(e.id)
+            else:
+                for e in ast.walk(s) if not isinstance(s, (ast.For, ast.While, ast.If, ast.With, ast.Try)) else []:
+                    if isinstance(e, ast.Name) and isinstance(e.ctx, (ast.Store, ast.Del)):
+                        stores.setdefault(e.id, []).append(None)
+            if isinstance(s, (ast.For, ast.AsyncFor)):
+                for e in ast.walk(s.target):
+                    if isinstance(e, ast.Name):
+                        stores.setdefault(e.id, []).append(None)
+                scan(s.body, True)
+                scan(s.orelse, loop)
+            elif isinstance(s, ast.While):
+                for e in ast.walk(s.test):
+                    if isinstance(e, ast.NamedExpr):
+                        stores.setdefault(e.target.id, []).append(None)
+                scan(s.body, True)
+                scan(s.orelse, loop)
+            elif isinstance(s, ast.If):
+                scan(s.body, loop)
+                scan(s.orelse, loop)
+            elif isinstance(s, (ast.With, ast.AsyncWith)):
+                for it in s.items:
+                    if it.optional_vars is not None:
+                        for e in ast.walk(it.optional_vars):
+                            if isinstance(e, ast.Name):
+                                stores.setdefault(e.id, []).append(None)
+                scan(s.body, loop)
+            elif isinstance(s, ast.Try):
+                scan(s.body, loop)
+                for h in s.handlers:
+                    if h.name:
+                        stores.setdefault(h.name, []).append(None)
+                    scan(h.body, loop)
+                scan(s.orelse, loop)
+                scan(s.finalbody, loop)
+
+    scan(fnode.body, False)
+    for e in ast.walk(fnode):
+        if isinstance(e, ast.NamedExpr):
+            stores.setdefault(e.target.id, []).append(None)
+    params = {a.arg for a in fnode.args.args + fnode.args.kwonlyargs + fnode.args.posonlyargs}
+    if fnode.args.vararg:
+        params.add(fnode.args.vararg.arg)
+    if fnode.args.kwarg:
+        params.add(fnode.args.kwarg.arg)
+    cand = {n: v[0].value for n, v in stores.items() if len(v) == 1 and v[0] is not None and n not in in_loop and n not in params}
+    stable = {p for p in params if p not in stores}
+    changed = True
+    good = {}
+    while changed:
+        changed = False
+        for n, val in cand.items():
+            if n in good:
+                continue
+            ok = True
+            for e in ast.walk(val):
+                if isinstance(e, ast.Name) and isinstance(e.ctx, ast.Load):
+                    if e.id in stores and e.id not in good:
+                        ok = False
+                    elif e.id in params and e.id not in stable:
+                        ok = False
+                elif isinstance(e, ast.Subscript) and not allow_subscript:
+                    ok = False
+                elif isinstance(e, (ast.Yield, ast.YieldFrom, ast.Await, ast.NamedExpr, ast.Lambda)):
+                    ok = False
+            if ok:
+                good[n] = val
+                changed = True
+    return good
+
+
+class _SubstNames(ast.NodeTransformer):
+    def __init__(self, env):
+        self.env = env
+        self.depth = 0
+
+    def visit_Name(self, n):
+        if isinstance(n.ctx, ast.Load) and n.id in self.env and self.depth < 20:
+            import copy
+            self.depth += 1
+            r = self.visit(copy.deepcopy(self.env[n.id]))
+            self.depth -= 1
+            return r
+        return n
+
+
+def resolve_temps(fnode, expr, allow_subscript=False, pure_only=True):
+    """`expr` with every single-assignment temporary of `fnode` replaced by its defining expression (recursively).  With pure_only
+    a temporary whose definition contains a call other than a NumPy scalar constructor / len / int / float is left alone."""
+    import copy
+    env = single_assignments(fnode, allow_subscript)
+    if pure_only:
+        def pure(v):
+            for e in ast.walk(v):
+                if isinstance(e, ast.Call):
+                    d = dotted(e.func) or ""
+                    last = d.split(".")[-1]
+                    if last not in ("uint8", "uint16", "uint32", "uint64", "int8", "int16", "int32", "int64", "float32", "float64", "int", "float",
+                                    "len", "log", "log2", "sqrt", "exp", "array", "asarray", "min", "max", "abs"):
+                        return False
+            return True
+        env = {n: v for n, v in env.items() if pure(v)}
+    return _SubstNames(env).visit(copy.deepcopy(expr))
